@@ -3,7 +3,6 @@ package main
 import (
 	"fmt"
 	"os"
-	"os/exec"
 	"path/filepath"
 	"strings"
 	"sync/atomic"
@@ -198,7 +197,10 @@ func checkC17(tier, replay string) int {
 			hs = append(hs, history{[]fault{{Kind: "tool-missing", Listing: "small"}, {Kind: "cut-exit", P: lineCuts[i], Listing: "small"}}})
 		}
 	}
-	_, haveStrace := exec.LookPath("strace")
+	var haveStrace error
+	if !straceWorks() {
+		haveStrace = fmt.Errorf("strace cannot trace here")
+	}
 	var runs, reused, faultsHit, straceUnavailable int64
 	parallelFor(len(hs), func(i int) {
 		h := hs[i]
